@@ -182,6 +182,16 @@ def compare(R, E, op, a, b, node):
         return (not r) if isinstance(r, bool) else z3.Not(r)
     if isinstance(a, NdArr) or isinstance(b, NdArr):
         return npmodel.arr_compare(R, E, op, a, b, node)
+    from .values import NanReal
+    if isinstance(a, NanReal) or isinstance(b, NanReal):
+        # IEEE NaN (and numpy.ma.masked): every comparison with it is false, except != which is true
+        va, fa = (a.val, a.isnan) if isinstance(a, NanReal) else (a, z3.BoolVal(False))
+        vb, fb = (b.val, b.isnan) if isinstance(b, NanReal) else (b, z3.BoolVal(False))
+        inner = compare(R, E, op, va, vb, node)
+        inner = z3.BoolVal(inner) if isinstance(inner, bool) else inner
+        if isinstance(op, ast.NotEq):
+            return z3.simplify(z3.Or(zbool(fa), zbool(fb), inner))
+        return z3.simplify(z3.And(z3.Not(zbool(fa)), z3.Not(zbool(fb)), inner))
     chook = getattr(R, "compare_hook", None)
     if chook is not None:
         r = chook(E, op, a, b, node)
@@ -657,6 +667,9 @@ def call_method(R, E, recv, name, args, kwargs, node):
         if f is not None:
             return f(E, recv, args, kwargs, node)
     if is_sym(recv) and name in ("sum",):
+        return recv
+    from .values import NanReal as _NanReal
+    if isinstance(recv, _NanReal) and name in ("sum",):
         return recv
     raise Unsupported("method %s on %r at %s" % (name, recv, E.where(node)))
 
